@@ -31,7 +31,7 @@ EXTRA = {   # cross-property detectors worth running in addition to the defect's
     'C01-m6': ['C02', 'C13'], 'C10-m6': ['C08'], 'C14-m6': ['C02'], 'C15-m6': ['C04', 'C05'], 'C16-m6': ['C14'], 'C18-m6': [],
     'C03-m5': ['C17'], 'C03-m6': ['C06'], 'C07-m5': ['C08'], 'C09-m6': ['C01'], 'C11-m6': ['C03'], 'C13-m6': ['C17', 'C05'],
 }
-res_path = os.path.join(SEEDED, 'RESULTS.json')
+res_path = os.environ.get('SM_RESULTS') or os.path.join(SEEDED, 'RESULTS.json')   # SM_RESULTS: separate file for parallel instances (merge afterwards)
 results = json.load(open(res_path)) if os.path.exists(res_path) else {}
 names = sorted(n for n in os.listdir(SEEDED) if os.path.isdir(os.path.join(SEEDED, n)))
 for name in names:
